@@ -75,6 +75,8 @@ func c04Val(name string, tag byte) []byte {
 		return fillBytes(3000, tag)
 	case "big":
 		return fillBytes(300_000, tag)
+	case "over": // larger than the whole capacity: the put prunes everything, itself included
+		return fillBytes(1_000_001, tag)
 	}
 	panic("value " + name)
 }
@@ -359,7 +361,7 @@ func c04Events() []string {
 			evs = append(evs, "put:"+id+":"+v)
 		}
 	}
-	evs = append(evs, "put:A:big", "put:N1:big")
+	evs = append(evs, "put:A:big", "put:N1:big", "put:A2:over")
 	for _, id := range c04IdOrder {
 		evs = append(evs, "get:"+id)
 	}
